@@ -501,3 +501,82 @@ M("C06-R4-parse-limit-absent-eats-lexem", "C06", [(P, """            _ => {
     }
 
     fn parse_output_format""")], ["parse_limit"])
+
+# ---------------------------------------------------------------- wave-h rules
+M("C07-R2-V-sum-u64", "C07", [(F, "    let mut sum = 0;\n    for value in raw_output_buffer {\n        if let Some(value) = value.get(buffer_key) {\n            if let Ok(value) = value.parse::<usize>() {\n                sum += value;",
+                                  "    let mut sum: u64 = 0;\n    for value in raw_output_buffer {\n        if let Some(value) = value.get(buffer_key) {\n            if let Ok(value) = value.parse::<u64>() {\n                sum += value;"),
+                              (F, "    sum\n}\n\n#[cfg(test)]\nmod tests {", "    sum as usize\n}\n\n#[cfg(test)]\nmod tests {")], kind="variant")
+M("C07-R2-min-as-float", "C07", [(F, ".filter_map(|value| value.parse::<i64>().ok()) // Parse the value and filter out errors\n                .min()\n                .unwrap_or(0); // If no items were found",
+                                     ".filter_map(|value| value.parse::<f64>().ok()) // Parse the value and filter out errors\n                .min_by(|a, b| a.total_cmp(b))\n                .unwrap_or(0.0); // If no items were found")], ["primitive"])
+M("C10-R3-status-narrowed-first", "C10", [("src/main.rs", "            match error_count {\n                0 => 0,\n                _ => 1,\n            }", "            (error_count as u8).min(1)")], ["status_error-count"])
+M("C10-R3-V-status-if", "C10", [("src/main.rs", "            match error_count {\n                0 => 0,\n                _ => 1,\n            }", "            if error_count > 0 {\n                1\n            } else {\n                0\n            }")], kind="variant")
+DK = "src/ignore/docker.rs"
+M("C20-R4-docker-comments-kept", "C20", [(DK, "Ok(line) => !line.trim().is_empty() && !line.starts_with(\"#\"),", "Ok(line) => !line.trim().is_empty(),")], ["verdict_loader"])
+M("C20-R4-docker-first-pattern-only", "C20", [(DK, "            .for_each(|line| {\n                if err.is_empty() {\n                    if let Ok(line) = line {\n                        let pattern = convert_dockerignore_pattern(&line, dir_path);",
+                                                   "            .take(1)\n            .for_each(|line| {\n                if err.is_empty() {\n                    if let Ok(line) = line {\n                        let pattern = convert_dockerignore_pattern(&line, dir_path);")], ["verdict_loader"])
+M("C20-R4-V-docker-loop", "C20", [(DK, """        reader
+            .lines()
+            .filter(|line| match line {
+                Ok(line) => !line.trim().is_empty() && !line.starts_with("#"),
+                _ => false,
+            })
+            .for_each(|line| {
+                if err.is_empty() {
+                    if let Ok(line) = line {
+                        let pattern = convert_dockerignore_pattern(&line, dir_path);
+                        match pattern {
+                            Ok(pattern) => result.push(pattern),
+                            Err(parse_err) => err = parse_err,
+                        }
+                    }
+                }
+            });""", """        for line in reader.lines() {
+            let Ok(line) = line else { continue };
+            if line.trim().is_empty() || line.starts_with("#") {
+                continue;
+            }
+            if !err.is_empty() {
+                continue;
+            }
+            match convert_dockerignore_pattern(&line, dir_path) {
+                Ok(pattern) => result.push(pattern),
+                Err(parse_err) => err = parse_err,
+            }
+        }""")], kind="variant")
+OJ2 = "src/output/json.rs"
+M("C09-R2-V-json-clear-after", "C09", [(OJ2, "        let result = serde_json::to_string(&self.file_map).unwrap();\n        self.file_map.clear();\n        Some(result)",
+                                            "        let row = Some(serde_json::to_string(&self.file_map).unwrap());\n        self.file_map.clear();\n        row")], kind="variant")
+M("C09-R2-json-trimmed", "C09", [(OJ2, "        Some(result)\n    }\n\n    fn footer", "        Some(result.replace(\"\\\\u\", \"u\"))\n    }\n\n    fn footer")], ["escape_json"])
+M("X-EXPRWALK-V-full-walk", "C15", [("src/expr.rs", "    pub fn contains_numeric(&self) -> bool {", """    #[allow(dead_code)]
+    pub fn depth(&self) -> usize {
+        let mut d = 0;
+        if let Some(ref left) = self.left {
+            d = d.max(left.depth());
+        }
+        if let Some(ref right) = self.right {
+            d = d.max(right.depth());
+        }
+        if let Some(ref args) = self.args {
+            for arg in args {
+                d = d.max(arg.depth());
+            }
+        }
+        d + 1
+    }
+
+    pub fn contains_numeric(&self) -> bool {""")], kind="variant")
+M("X-EXPRWALK-skips-args", "C15", [("src/expr.rs", "    pub fn contains_numeric(&self) -> bool {", """    #[allow(dead_code)]
+    pub fn depth(&self) -> usize {
+        let mut d = 0;
+        if let Some(ref left) = self.left {
+            d = d.max(left.depth());
+        }
+        if let Some(ref right) = self.right {
+            d = d.max(right.depth());
+        }
+        d + 1
+    }
+
+    pub fn contains_numeric(&self) -> bool {""")], ["expr-walk"])
+M("C09-R2-csv-semicolon-dialect", "C09", [("src/output/csv.rs", "let mut csv_writer = csv::Writer::from_writer(&mut csv_output);", "let mut csv_writer = csv::WriterBuilder::new().delimiter(b';').from_writer(&mut csv_output);")], ["escape_csv"])
+M("C09-R2-V-csv-builder-capacity", "C09", [("src/output/csv.rs", "let mut csv_writer = csv::Writer::from_writer(&mut csv_output);", "let mut csv_writer = csv::WriterBuilder::new().buffer_capacity(4096).from_writer(&mut csv_output);")], kind="variant")
